@@ -156,7 +156,10 @@ def gen_one(rng, tier, index):
         decoys = [f'{prefix}/{p}' for p in tree_paths
                   if rng.random() < 0.7]
     return {'from_file': from_file, 'tree': tree_paths, 'where': where,
-            'desc': desc, 'decoys': decoys, 'reload': rng.random() < 0.3}
+            'desc': desc, 'decoys': decoys, 'reload': rng.random() < 0.3,
+            # before the second load the program binds other handles to some
+            # of the resource paths (which ones: by position)
+            'rebind': rng.choice([0, 0, 1, 2, 3])}
 
 
 def gen_scale(rng, index):
@@ -591,6 +594,15 @@ def _run(case, desper, fx, res, tmp):
         for h in handles.values():
             h.clear()
             h()                      # resources are new objects now
+        # ... and some paths are bound to other handles altogether: the
+        # second load must be substituted against what the map holds NOW
+        step = case.get('rebind', 0)
+        for i, p in enumerate(sorted(handles)):
+            if step and i % step == 0:
+                handles[p] = RH(p)
+                root[p] = handles[p]
+                handles[p]()
+                res.stats['paths_rebound_before_reload'] += 1
         mark = len(fx.LOG)
         handle.clear()
         try:
